@@ -73,6 +73,14 @@ package decimal
 //@   use Vdef(m, lo, hi-1)
 //@   use Vdef(n, lo, hi-1)
 
+//@ lemma V_eq_shift(m array, n array, lo, hi, d)
+//@   requires lo <= hi
+//@   requires forall k in lo..hi :: m[k] == n[k+d]
+//@   ensures V(m, lo, hi) == V(n, lo+d, hi+d)
+//@   induction hi from lo
+//@   use Vdef(m, lo, hi-1)
+//@   use Vdef(n, lo+d, hi-1+d)
+
 // A destination may be the source itself (same base) or disjoint from it.
 //@ define inplace_or_disjoint(z, x) = samebase(z, x) || disjoint(z, x[:len(z)])
 
